@@ -20,7 +20,7 @@ class Job:
     def __init__(self, jid, prop, harness, repo_files, defines=(), variant="slack", models=("libc_models.c",),
                  unwind_rules=(), unwind_default=None, cbmc_flags=(), timeout=120, mem_gb=8,
                  memchecks=False, fn=None, bounds=None, exclude=None, only=None, witness=None,
-                 extra_sources=(), ptrorder=True, repo_defines=(), remove_bodies=(), object_bits=None, harness_unwind=400, retry_unwind=None):
+                 extra_sources=(), ptrorder=True, repo_defines=(), remove_bodies=(), object_bits=None, harness_unwind=400, retry_unwind=None, native_models=()):
         self.jid = jid
         self.prop = prop
         self.harness = harness            # file name under harness/
@@ -46,6 +46,7 @@ class Job:
         self.object_bits = object_bits
         self.harness_unwind = harness_unwind
         self.retry_unwind = retry_unwind
+        self.native_models = list(native_models)
 
     def all_defines(self, witness=False):
         d = ["-DPROP_%s" % self.prop] + list(self.defines)
@@ -190,7 +191,8 @@ class Job:
         for f in NATIVE_SUPPORT:  # the native link needs every callee, also those CBMC drops as unreachable
             if f not in native_files and ('#include "%s"' % f.split("src/", 1)[1]) not in included:
                 native_files.append(f)
-        srcs = [os.path.join(HARNESS, self.harness)] + [os.path.join(core.REPO, f) for f in native_files] + self.extra_sources
+        srcs = [os.path.join(HARNESS, self.harness)] + [os.path.join(core.REPO, f) for f in native_files] + self.extra_sources + \
+               [os.path.join(MODELS, m) for m in self.native_models]
         extra_inc = sorted({os.path.dirname(os.path.join(core.REPO, f)) for f in self.repo_files})
         exe = os.path.join(wd, "replay")
         defs = [d for d in self.all_defines() if not d.startswith("-DVH_EXCLUDE") and not d.startswith("-DVH_ONLY")]
